@@ -19,6 +19,7 @@ EXPLANATION = (
     "C03.8 a failed in-place resize mutates nothing: no store or mutating call in try_realloc_chunk lies on a path that then returns null. "
     "C03.10 inner_malloc / inner_realloc (natural alignment only) are reached only under align <= MALLOC_ALIGNMENT; C03.9 an over-aligned request reserves at least request2size(bytes) + alignment + MIN_CHUNK_SIZE - CHUNK_OVERHEAD and splits its tail only when a whole chunk remains. "
     "C03.11 in free and dispose_chunk every path after `self.top = p` tests p == dv and clears dv/dvsize when it holds (a chunk merged into top is retired as designated victim). "
+    "C03.12 insert_large_chunk clears both child pointers of the inserted chunk on every path (also for a chunk that only joins a same-size ring). "
     "NOT decided: alignment, disjointness and intactness of live blocks - invariants of the bin/tree/segment shape over call histories (the module's own check_malloc_state is a run-time checker); no structural rule in reach establishes them.")
 ASSUMPTIONS = ["dlmalloc's heap-shape invariants hold (not established here)", "MUNMAP returns 0 or -errno"]
 
@@ -334,6 +335,35 @@ def run_one(ck, prog):
             ck.ob("C03.11", f"{nm}|chunk-made-top-is-retired-as-dv", not leak and cleared, fn=f11["path"], site=c11.site(w), path=cfg11.render_path(path) if path else None,
                   detail="after `self.top = p` every path must test `p == self.dv` and clear dv and dvsize when it holds: p may have absorbed the designated victim while consolidating backwards, and a dv left pointing into top is handed out a second time")
 
+    # ---- C03.12 a chunk entering a tree bin carries no stale links: on every path through insert_large_chunk both child pointers of the
+    # inserted chunk are written (null), whichever way it is linked in - also when it only joins the ring of a same-sized node, because
+    # unlink_large_chunk later promotes ring members into the tree and trusts their child pointers
+    ilc = prog.fns.get(DL + "insert_large_chunk")
+    if ck.anchor("C03.12", "insert_large_chunk", ilc):
+        ic = prog.ctx(ilc)
+        clears = {}
+        for b in ilc["blocks"]:
+            if b.get("cleanup") or b["id"] not in ic.cfg.live_blocks():
+                continue
+            for i, st in enumerate(b["stmts"]):
+                if st["k"] == "assign" and st["dst"].get("p") and st["dst"]["l"] == 2 and st["dst"]["p"][0]["k"] == "deref" and len(st["dst"]["p"]) >= 2 and st["dst"]["p"][1].get("n") == "child":
+                    v = ic.prov.rvalue(st["rv"], (b["id"], i))
+                    is_null = fold(v) == 0 or mentions(v, ic.prov, lambda z: z[0] == "call" and (z[1] or "").endswith("ptr::null_mut")) and not mentions(v, ic.prov, lambda z: z[0] == "param")
+                    if not is_null:
+                        continue
+                    if len(st["dst"]["p"]) == 2:
+                        clears.setdefault("both", set()).add(b["id"])
+                    else:
+                        idxl = st["dst"]["p"][2].get("l")
+                        k = fold(ic.prov.operand({"k": "copy", "p": {"l": idxl}}, (b["id"], i))) if idxl is not None else st["dst"]["p"][2].get("i", st["dst"]["p"][2].get("offset"))
+                        clears.setdefault(k, set()).add(b["id"])
+        rets = set(ic.cfg.return_blocks())
+        for k in (0, 1):
+            blocks = clears.get(k, set()) | clears.get("both", set())
+            leak = rets & ic.cfg.reachable_from(0, avoid=blocks) if blocks else rets
+            ck.ob("C03.12", f"insert_large_chunk|child[{k}]-cleared-on-every-path", bool(blocks) and not leak, fn=ilc["path"],
+                  detail=f"a path through insert_large_chunk leaves child[{k}] of the inserted chunk as the previous owner left it: when that chunk is later promoted into the tree the allocator follows user bytes as tree links")
+
     # ---- C03.8 a failed in-place resize leaves the heap untouched ------------------------------------------------------------------------------
     trc = prog.fns.get(DL + "try_realloc_chunk")
     if ck.anchor("C03.8", "try_realloc_chunk", trc):
@@ -399,6 +429,11 @@ def run_one(ck, prog):
     if ck.ob("C03.6", "anchor|constants", all(isinstance(v, int) for v in vals.values()), detail=str(vals)):
         ck.ob("C03.6", "MIN_LARGE_SIZE==NSMALLBINS<<SMALLBIN_SHIFT==1<<TREEBIN_SHIFT", mls == ns << ss == 1 << tsft, detail=f"{mls} vs {ns << ss} vs {1 << tsft}: the small-bin index of the largest small size must stay below NSMALLBINS")
         ck.ob("C03.6", "MAX_SMALL_REQUEST<MIN_LARGE_SIZE", msr < mls, detail=f"{msr} vs {mls}")
+        # the largest request served from the small bins, padded (request + CHUNK_OVERHEAD rounded up to MALLOC_ALIGNMENT), must still be
+        # a small size: its bin index (size >> SMALLBIN_SHIFT) has to stay below NSMALLBINS
+        if isinstance(co, int):
+            padded = (msr + co + ma - 1) // ma * ma
+            ck.ob("C03.6", "padded MAX_SMALL_REQUEST is a small size", padded < mls and (padded >> ss) < ns, detail=f"MAX_SMALL_REQUEST={msr} pads to {padded} (bin {padded >> ss}); small sizes end below {mls} (bins 0..{ns - 1}): a larger value indexes one past the last small bin")
         ck.ob("C03.6", "NTREEBINS==32 (bit-map width)", nt == 32 and ns == 32, detail=f"NTREEBINS={nt} NSMALLBINS={ns}: treemap/smallmap are u32 bit-maps")
         ck.ob("C03.6", "MALLOC_ALIGNMENT==2*usize, power of two", ma == 16 and ma & (ma - 1) == 0, detail=str(ma))
         ck.ob("C03.6", "MIN_CHUNK_SIZE multiple of alignment and >= 4 words", mcs % ma == 0 and mcs >= 32, detail=f"MIN_CHUNK_SIZE={mcs}")
